@@ -128,13 +128,13 @@ macro "step_cases" hs:ident : tactic =>
 @[simp] theorem afterSnap_sub (s l) : hHoldsSub (afterSnap s l) = false := (afterSnap_holds s l).2.1
 @[simp] theorem afterSnap_upd (s l m) : hHoldsUpd (afterSnap s l) m = false := (afterSnap_holds s l).2.2 m
 @[simp] theorem afterSnap_ne (s l) : afterSnap s l ≠ .start .disconnect := by cases l <;> simp [afterSnap]
-@[simp] theorem afterTable_disp (cfg r) : hHoldsDisp (afterTable cfg r) = (r != .disconnect) := by
+@[simp] theorem afterTable_disp (cfg c r) : hHoldsDisp (afterTable cfg c r) = (r != .disconnect) := by
   cases r <;> simp [afterTable]
-@[simp] theorem afterTable_sub (cfg r) : hHoldsSub (afterTable cfg r) = false := by
+@[simp] theorem afterTable_sub (cfg c r) : hHoldsSub (afterTable cfg c r) = false := by
   cases r <;> simp [afterTable]
-@[simp] theorem afterTable_upd (cfg r m) : hHoldsUpd (afterTable cfg r) m = false := by
+@[simp] theorem afterTable_upd (cfg c r m) : hHoldsUpd (afterTable cfg c r) m = false := by
   cases r <;> simp [afterTable]
-@[simp] theorem afterTable_ne (cfg r) : afterTable cfg r ≠ .start .disconnect := by cases r <;> simp [afterTable]
+@[simp] theorem afterTable_ne (cfg c r) : afterTable cfg c r ≠ .start .disconnect := by cases r <;> simp [afterTable]
 
 
 def lockMove {T : Type} (o : Option T) (t : T) (b b' : Bool) : Option T :=
@@ -171,12 +171,13 @@ theorem stepH_frame (cfg : Cfg) (σ σ' : State) (c : Conn) (hn : σ.hpc c ≠ .
     refine ⟨?_, ?_, ?_, ?_, ?_, ?_, ?_, ?_, ?_, ?_, ?_⟩
     all_goals
       try intro m
-      simp_all [lockMove, set_apply]
+      simp_all [lockMove, set_apply, Subtype.ext_iff]
+      try (intro h; cases Subtype.ext h; assumption)
 
 
 theorem stepU_frame (cfg : Cfg) (σ σ' : State) (k : Nat) (arg : Conn) (hs : stepU cfg σ k arg = some σ') :
     σ'.upc = set σ.upc k (σ'.upc k) ∧ σ'.hpc = σ.hpc ∧ σ'.hscript = σ.hscript ∧ σ'.disp = σ.disp ∧
-    σ'.active = σ.active ∧ σ'.subMod = σ.subMod ∧ σ'.subPar = σ.subPar ∧
+    σ'.active = σ.active ∧ σ'.subs = σ.subs ∧
     σ'.sub = lockMove σ.sub (.u k) (uHoldsSub (σ.upc k)) (uHoldsSub (σ'.upc k)) ∧
     (uHoldsSub (σ'.upc k) = true → uHoldsSub (σ.upc k) = false → σ.sub = none) ∧
     (∀ m, σ'.upd m = lockMove (σ.upd m) (.u k) (uHoldsUpd (σ.upc k) m) (uHoldsUpd (σ'.upc k) m)) ∧
@@ -184,10 +185,11 @@ theorem stepU_frame (cfg : Cfg) (σ σ' : State) (k : Nat) (arg : Conn) (hs : st
   unfold stepU at hs
   step_cases hs
   all_goals
-    refine ⟨?_, ?_, ?_, ?_, ?_, ?_, ?_, ?_, ?_, ?_, ?_⟩
+    refine ⟨?_, ?_, ?_, ?_, ?_, ?_, ?_, ?_, ?_, ?_⟩
     all_goals
       try intro m
-      simp_all [lockMove, set_apply]
+      simp_all [lockMove, set_apply, Subtype.ext_iff]
+      try (intro h; cases Subtype.ext h; assumption)
 
 def holdsSub (σ : State) : Tid → Bool
   | .h c => hHoldsSub (σ.hpc c)
@@ -237,7 +239,7 @@ theorem lockInv_stepH (cfg : Cfg) (σ σ' : State) (c : Conn) (hI : LockInv σ) 
 
 theorem lockInv_stepU (cfg : Cfg) (σ σ' : State) (k : Nat) (arg : Conn) (hI : LockInv σ)
     (hs : stepU cfg σ k arg = some σ') : LockInv σ' := by
-  obtain ⟨f1, f2, _, f4, _, _, _, f8, f9, f10, f11⟩ := stepU_frame cfg σ σ' k arg hs
+  obtain ⟨f1, f2, _, f4, _, _, f8, f9, f10, f11⟩ := stepU_frame cfg σ σ' k arg hs
   have hoth : ∀ x, x ≠ k → σ'.upc x = σ.upc x := by intro x hx; rw [f1]; simp [set_apply, hx]
   constructor
   · rw [f4, f2]; exact hI.disp
@@ -364,25 +366,224 @@ theorem no_deadlock (cfg : Cfg) (σ : State) (hI : LockInv σ) (t : Tid) (ht : f
 
 /-! ## tables, scopes and the Silent invariant -/
 
+/-! ## names: keys of subscriptions are strings -/
+
+theorem takeWhile_colon (l p : Name) (h : colon ∉ l) :
+    (l ++ colon :: p).takeWhile (fun ch => ch != colon) = l := by
+  induction l with
+  | nil => simp [List.takeWhile]
+  | cons x xs ih =>
+    have hx : x ≠ colon := by intro e; exact h (by simp [e])
+    have hxs : colon ∉ xs := by intro e; exact h (by simp [e])
+    simp [List.takeWhile, hx, ih hxs]
+
+theorem modPart_pkey (m : Mod) (p : Par) : modPart (pkey m p) = m.val :=
+  takeWhile_colon m.val p m.property
+
+theorem key_split (l l' p p' : Name) (h : colon ∉ l) (h' : colon ∉ l')
+    (e : l ++ colon :: p = l' ++ colon :: p') : l = l' ∧ p = p' := by
+  have h1 := congrArg (List.takeWhile (fun ch => ch != colon)) e
+  rw [takeWhile_colon l p h, takeWhile_colon l' p' h'] at h1
+  subst h1
+  have := List.append_cancel_left e
+  exact ⟨rfl, by simpa using this⟩
+
+theorem pkey_inj (m m' : Mod) (p p' : Par) : pkey m p = pkey m' p' ↔ m = m' ∧ p = p' := by
+  constructor
+  · intro e
+    obtain ⟨h1, h2⟩ := key_split _ _ _ _ m.property m'.property e
+    exact ⟨Subtype.ext h1, h2⟩
+  · rintro ⟨rfl, rfl⟩; rfl
+
+theorem pkey_ne_mod (m m' : Mod) (p : Par) : pkey m p ≠ m'.val := by
+  intro e
+  apply m'.property
+  rw [← e]; simp [pkey]
+
+theorem prefix_key (l l' p : Name) (h : colon ∉ l) (h' : colon ∉ l') :
+    (l ++ [colon]).isPrefixOf (l' ++ colon :: p) = true ↔ l = l' := by
+  rw [List.isPrefixOf_iff_prefix]
+  constructor
+  · rintro ⟨t, ht⟩
+    have : l ++ colon :: t = l' ++ colon :: p := by simpa using ht
+    exact (key_split _ _ _ _ h h' this).1
+  · rintro rfl
+    exact ⟨p, by simp⟩
+
+theorem not_prefix_mod (l l' : Name) (h' : colon ∉ l') : (l ++ [colon]).isPrefixOf l' = false := by
+  cases hb : (l ++ [colon]).isPrefixOf l' with
+  | false => rfl
+  | true =>
+    rw [List.isPrefixOf_iff_prefix] at hb
+    obtain ⟨t, ht⟩ := hb
+    exact absurd (by rw [← ht]; simp) h'
+
+theorem contains_colon_mod (m : Mod) : m.val.contains colon = false := by
+  cases h : m.val.contains colon with
+  | false => rfl
+  | true => exact absurd (by simpa using h) m.property
+
+theorem contains_colon_pkey (m : Mod) (p : Par) : (pkey m p).contains colon = true := by
+  simp [pkey]
+
+/-- the string tests of `unsubscribe` implement "the same scope, or a parameter of the module" -/
+theorem unsubKeys_iff_cancels (d a : Scope) (hd : d ≠ .all) (ha : a ≠ .all) :
+    unsubKeys d.key a.key = true ↔ cancels d a = true := by
+  cases d with
+  | all => exact absurd rfl hd
+  | mod m =>
+    cases a with
+    | all => exact absurd rfl ha
+    | mod m' =>
+      simp only [unsubKeys, Scope.key, contains_colon_mod, not_prefix_mod _ _ m'.property, cancels,
+        Bool.or_eq_true, Bool.and_eq_true, beq_iff_eq, Bool.not_false, Bool.false_eq_true, and_false, false_or]
+      constructor
+      · intro e; exact Subtype.ext e.symm
+      · intro e; rw [e]
+    | par m' p' =>
+      simp only [unsubKeys, Scope.key, contains_colon_mod, cancels, Bool.or_eq_true, Bool.and_eq_true,
+        beq_iff_eq, Bool.not_false, true_and]
+      constructor
+      · rintro (h | h)
+        · exact Subtype.ext ((prefix_key _ _ _ m.property m'.property).1 h)
+        · exact absurd h (pkey_ne_mod m' m p')
+      · intro e; subst e; left
+        exact (prefix_key m.val m.val p' m.property m.property).2 rfl
+  | par m p =>
+    cases a with
+    | all => exact absurd rfl ha
+    | mod m' =>
+      simp only [unsubKeys, Scope.key, contains_colon_pkey, cancels, Bool.or_eq_true, Bool.and_eq_true,
+        beq_iff_eq, Bool.not_true, Bool.false_eq_true, false_and, false_or, iff_false]
+      intro e; exact pkey_ne_mod m m' p e.symm
+    | par m' p' =>
+      simp only [unsubKeys, Scope.key, contains_colon_pkey, cancels, Bool.or_eq_true, Bool.and_eq_true,
+        beq_iff_eq, Bool.not_true, Bool.false_eq_true, false_and, false_or]
+      constructor
+      · intro e; obtain ⟨h1, h2⟩ := (pkey_inj _ _ _ _).1 e; exact ⟨h1.symm, h2.symm⟩
+      · rintro ⟨h1, h2⟩; subst h1 h2; rfl
+
+theorem unsubKeys_eq_cancels (d a : Scope) (hd : d ≠ .all) (ha : a ≠ .all) :
+    unsubKeys d.key a.key = cancels d a :=
+  Bool.eq_iff_iff.2 (unsubKeys_iff_cancels d a hd ha)
+
+
 def tableHas (σ : State) (c : Conn) : Scope → Bool
   | .all => σ.active c
-  | .mod m => σ.subMod m c
-  | .par m p => σ.subPar m p c
+  | .mod m => σ.subs m.val c
+  | .par m p => σ.subs (pkey m p) c
+
+theorem tableHas_key (σ : State) (c : Conn) (a : Scope) (ha : a ≠ .all) : tableHas σ c a = σ.subs a.key c := by
+  cases a with
+  | all => exact absurd rfl ha
+  | mod m => rfl
+  | par m p => rfl
+
+theorem key_inj (a b : Scope) (ha : a ≠ .all) (hb : b ≠ .all) (h : a.key = b.key) : a = b := by
+  cases a with
+  | all => exact absurd rfl ha
+  | mod m =>
+    cases b with
+    | all => exact absurd rfl hb
+    | mod m' => simp only [Scope.key] at h; rw [Subtype.ext h]
+    | par m' p' => exact absurd h.symm (pkey_ne_mod m' m p')
+  | par m p =>
+    cases b with
+    | all => exact absurd rfl hb
+    | mod m' => exact absurd h (pkey_ne_mod m m' p)
+    | par m' p' => obtain ⟨h1, h2⟩ := (pkey_inj _ _ _ _).1 h; rw [h1, h2]
+
+theorem listens_eq (σ : State) (c : Conn) (m : Mod) (p : Par) :
+    listens σ c m p = (tableHas σ c (.par m p) || tableHas σ c (.mod m) || tableHas σ c .all) := by
+  simp [listens, tableHas, modPart_pkey]
 
 theorem listens_iff (σ : State) (c : Conn) (m : Mod) (p : Par) :
     listens σ c m p = true ↔ ∃ s, tableHas σ c s = true ∧ covers s m p = true := by
+  rw [listens_eq]
   constructor
   · intro h
-    simp only [listens, Bool.or_eq_true] at h
+    simp only [Bool.or_eq_true] at h
     rcases h with (h | h) | h
-    · exact ⟨.all, h, rfl⟩
-    · exact ⟨.mod m, h, by simp [covers]⟩
     · exact ⟨.par m p, h, by simp [covers]⟩
+    · exact ⟨.mod m, h, by simp [covers]⟩
+    · exact ⟨.all, h, rfl⟩
   · rintro ⟨s, h1, h2⟩
     cases s with
-    | all => simp_all [listens, tableHas]
-    | mod m' => simp_all [listens, tableHas, covers]
-    | par m' p' => simp_all [listens, tableHas, covers]
+    | all => simp [h1]
+    | mod m' =>
+      have : m' = m := by
+        have : m'.val = m.val := by simpa [covers] using h2
+        exact Subtype.ext this
+      subst this; simp [h1]
+    | par m' p' =>
+      have : m'.val = m.val ∧ p' = p := by simpa [covers] using h2
+      obtain ⟨h3, rfl⟩ := this
+      have := Subtype.ext h3
+      subst this; simp [h1]
+
+/-- what `subscribe` / `_active_connections.add` does to the table, scope-wise -/
+theorem tableHas_register (σ : State) (c : Conn) (s : Scope) (c' : Conn) (a : Scope) :
+    tableHas (register σ c s) c' a = (if c' = c ∧ a = s then true else tableHas σ c' a) := by
+  cases s with
+  | all => cases a <;> simp [register, tableHas]
+  | mod m =>
+    cases a with
+    | all => simp [register, subscribe, tableHas]
+    | mod m' =>
+      simp only [register, subscribe, tableHas, Scope.key, Scope.mod.injEq]
+      by_cases h : m' = m
+      · subst h; simp
+      · have : ¬ m'.val = m.val := fun e => h (Subtype.ext e)
+        simp [this, h]
+    | par m' p' =>
+      have : ¬ pkey m' p' = m.val := pkey_ne_mod m' m p'
+      simp [register, subscribe, tableHas, Scope.key, this]
+  | par m p =>
+    cases a with
+    | all => simp [register, subscribe, tableHas]
+    | mod m' =>
+      have : ¬ m'.val = pkey m p := fun e => pkey_ne_mod m m' p e.symm
+      simp [register, subscribe, tableHas, Scope.key, this]
+    | par m' p' =>
+      simp only [register, subscribe, tableHas, Scope.key, Scope.par.injEq, pkey_inj]
+      by_cases h : c' = c <;> simp [h]
+
+/-- what `unsubscribe` / `_active_connections.discard` does to the table, scope-wise: its string tests clear
+exactly the scopes the deactivation matches -/
+theorem tableHas_unregister (σ : State) (c : Conn) (d : Scope) (c' : Conn) (a : Scope) :
+    tableHas (unregister σ c d) c' a = (if c' = c ∧ cancels d a = true then false else tableHas σ c' a) := by
+  cases d with
+  | all => cases a <;> simp [unregister, tableHas, cancels]
+  | mod m =>
+    cases a with
+    | all => simp [unregister, unsubscribe, tableHas, cancels]
+    | mod m' =>
+      have := unsubKeys_eq_cancels (.mod m) (.mod m') (by simp) (by simp)
+      simp only [Scope.key] at this
+      simp only [unregister, unsubscribe, tableHas, Scope.key, this]
+      by_cases h : c' = c <;> simp [h]
+    | par m' p' =>
+      have := unsubKeys_eq_cancels (.mod m) (.par m' p') (by simp) (by simp)
+      simp only [Scope.key] at this
+      simp only [unregister, unsubscribe, tableHas, Scope.key, this]
+      by_cases h : c' = c <;> simp [h]
+  | par m p =>
+    cases a with
+    | all => simp [unregister, unsubscribe, tableHas, cancels]
+    | mod m' =>
+      have := unsubKeys_eq_cancels (.par m p) (.mod m') (by simp) (by simp)
+      simp only [Scope.key] at this
+      simp only [unregister, unsubscribe, tableHas, Scope.key, this]
+      by_cases h : c' = c <;> simp [h]
+    | par m' p' =>
+      have := unsubKeys_eq_cancels (.par m p) (.par m' p') (by simp) (by simp)
+      simp only [Scope.key] at this
+      simp only [unregister, unsubscribe, tableHas, Scope.key, this]
+      by_cases h : c' = c <;> simp [h]
+
+theorem tableHas_resetConn (σ : State) (c c' : Conn) (a : Scope) :
+    tableHas (resetConn σ c) c' a = (if c' = c then false else tableHas σ c' a) := by
+  cases a <;> simp [resetConn, tableHas]
 
 /-- the scope a request thread is activating, from its marker to its reply -/
 def activating : HPc → Option Scope
@@ -399,8 +600,8 @@ def activating : HPc → Option Scope
 /-- the request whose table change is done and whose positive reply is still to come -/
 def ending : HPc → Option Req
   | .relSub r => some r
-  | .relDisp r true => some r
-  | .rep r true => some r
+  | .relDisp r ok => if replyEnds r ok then some r else none
+  | .rep r ok => if replyEnds r ok then some r else none
   | _ => none
 
 def goodMod (cfg : Cfg) (s : Scope) (m : Mod) : Prop := ∀ p ∈ scopePars cfg s m, covers s m p = true
@@ -491,12 +692,12 @@ theorem stepU_deliver (cfg : Cfg) (σ σ' : State) (k : Nat) (arg : Conn) (hs : 
 theorem silentInv_stepU (cfg : Cfg) (σ σ' : State) (k : Nat) (arg : Conn) (hI : SilentInv cfg σ)
     (hs : stepU cfg σ k arg = some σ') : SilentInv cfg σ' := by
   obtain ⟨hacc, htbl, hact, hsnd, hclr, hcov⟩ := hI
-  obtain ⟨f1, f2, f3, f4, f5, f6, f7, f8, f9, f10, f11⟩ := stepU_frame cfg σ σ' k arg hs
+  obtain ⟨f1, f2, f3, f4, f5, f6, f8, f9, f10, f11⟩ := stepU_frame cfg σ σ' k arg hs
   clear f3 f4 f8 f9 f10 f11
   have htab : ∀ c s, tableHas σ' c s = tableHas σ c s := by
-    intro c s; cases s <;> simp [tableHas, f5, f6, f7]
+    intro c s; cases s <;> simp [tableHas, f5, f6]
   have hlis : ∀ c m p, listens σ' c m p = listens σ c m p := by
-    intro c m p; simp [listens, f5, f6, f7]
+    intro c m p; simp [listens, f5, f6]
   have htr := stepU_deliver cfg σ σ' k arg hs
   have hlive : liveOf σ' = liveOf σ := by
     simp only [liveOf]
@@ -534,14 +735,14 @@ theorem silentInv_stepU (cfg : Cfg) (σ σ' : State) (k : Nat) (arg : Conn) (hI 
 theorem silentInv_pcOnly (cfg : Cfg) (σ σ' : State) (c : Conn) (pc' : HPc) (hI : SilentInv cfg σ)
     (hacc : silentMon.acceptsFrom silentMon.init σ'.trace = true)
     (hpc : σ'.hpc = set σ.hpc c pc') (hlive : liveOf σ' = liveOf σ) (hupc : σ'.upc = σ.upc)
-    (ha : σ'.active = σ.active) (hm : σ'.subMod = σ.subMod) (hp : σ'.subPar = σ.subPar)
+    (ha : σ'.active = σ.active) (hm : σ'.subs = σ.subs)
     (hact : ∀ s, activating pc' = some s → activating (σ.hpc c) = some s)
     (hclr : ∀ r, ending pc' = some r → ending (σ.hpc c) = some r ∨ ∀ a, ends r a = false)
     (hcov : covInv cfg pc') : SilentInv cfg σ' := by
   have htab : ∀ c s, tableHas σ' c s = tableHas σ c s := by
-    intro c s; cases s <;> simp [tableHas, ha, hm, hp]
+    intro c s; cases s <;> simp [tableHas, ha, hm]
   have hlis : ∀ c m p, listens σ' c m p = listens σ c m p := by
-    intro c m p; simp [listens, ha, hm, hp]
+    intro c m p; simp [listens, ha, hm]
   refine ⟨hacc, ?_, ?_, ?_, ?_, ?_⟩
   · intro c' s h; rw [hlive]; rw [htab] at h; exact hI.tbl c' s h
   · intro c' s h; rw [hlive]; rw [hpc, set_apply] at h
@@ -572,11 +773,11 @@ theorem silentInv_begin (cfg : Cfg) (σ σ' : State) (c : Conn) (r : Req) (hI : 
     (hacc : silentMon.acceptsFrom silentMon.init σ'.trace = true)
     (hidle : σ.hpc c = .idle)
     (hpc : σ'.hpc = set σ.hpc c (firstPc r)) (htr : σ'.trace = σ.trace ++ [.reqStart c r]) (hupc : σ'.upc = σ.upc)
-    (ha : σ'.active = σ.active) (hm : σ'.subMod = σ.subMod) (hp : σ'.subPar = σ.subPar) : SilentInv cfg σ' := by
+    (ha : σ'.active = σ.active) (hm : σ'.subs = σ.subs) : SilentInv cfg σ' := by
   have htab : ∀ c s, tableHas σ' c s = tableHas σ c s := by
-    intro c s; cases s <;> simp [tableHas, ha, hm, hp]
+    intro c s; cases s <;> simp [tableHas, ha, hm]
   have hlis : ∀ c m p, listens σ' c m p = listens σ c m p := by
-    intro c m p; simp [listens, ha, hm, hp]
+    intro c m p; simp [listens, ha, hm]
   have hlive : liveOf σ' = liveNext (liveOf σ) (.reqStart c r) := by
     simp only [liveOf]; rw [htr, Mon.after_append]; rfl
   refine ⟨hacc, ?_, ?_, ?_, ?_, ?_⟩
@@ -599,29 +800,30 @@ theorem silentInv_begin (cfg : Cfg) (σ σ' : State) (c : Conn) (r : Req) (hI : 
 /-- a reply (or the end of a disconnect) -/
 theorem silentInv_reply (cfg : Cfg) (σ σ' : State) (c : Conn) (r : Req) (ok : Bool) (hI : SilentInv cfg σ)
     (hacc : silentMon.acceptsFrom silentMon.init σ'.trace = true)
-    (hend : ok = true → ending (σ.hpc c) = some r)
+    (hend : replyEnds r ok = true → ending (σ.hpc c) = some r)
     (hpc : σ'.hpc = set σ.hpc c .idle) (htr : σ'.trace = σ.trace ++ [.reply c r ok]) (hupc : σ'.upc = σ.upc)
-    (ha : σ'.active = σ.active) (hm : σ'.subMod = σ.subMod) (hp : σ'.subPar = σ.subPar) : SilentInv cfg σ' := by
+    (ha : σ'.active = σ.active) (hm : σ'.subs = σ.subs) : SilentInv cfg σ' := by
   have htab : ∀ c s, tableHas σ' c s = tableHas σ c s := by
-    intro c s; cases s <;> simp [tableHas, ha, hm, hp]
+    intro c s; cases s <;> simp [tableHas, ha, hm]
   have hlis : ∀ c m p, listens σ' c m p = listens σ c m p := by
-    intro c m p; simp [listens, ha, hm, hp]
+    intro c m p; simp [listens, ha, hm]
   have hlive : liveOf σ' = liveNext (liveOf σ) (.reply c r ok) := by
     simp only [liveOf]; rw [htr, Mon.after_append]; rfl
   have hkeep : ∀ c' s, s ∈ liveOf σ c' → (c' = c → tableHas σ c s = true ∨ False) → s ∈ liveOf σ' c' := by
     intro c' s h hx
     rw [hlive]
-    cases ok with
-    | false => exact h
+    simp only [liveNext]
+    cases hre : replyEnds r ok with
+    | false => simpa using h
     | true =>
-      simp only [liveNext, set_apply]
+      simp only [if_true, set_apply]
       split
       · rename_i hc; subst hc
         rcases hx rfl with ht | hf
         · apply mem_filter_not_ends h
           cases he : ends r s with
           | false => rfl
-          | true => have := hI.clr c' r (hend rfl) s he; rw [ht] at this; cases this
+          | true => have := hI.clr c' r (hend hre) s he; rw [ht] at this; cases this
         · exact hf.elim
       · exact h
   refine ⟨hacc, ?_, ?_, ?_, ?_, ?_⟩
@@ -642,33 +844,38 @@ theorem silentInv_reply (cfg : Cfg) (σ σ' : State) (c : Conn) (r : Req) (ok : 
     · exact hI.cov c'
 
 
+/-- the table after the table change of request `r` of connection `c`, scope-wise -/
+theorem tableHas_tableWrite (σ : State) (c : Conn) (r : Req) (c' : Conn) (a : Scope) :
+    tableHas (tableWrite σ c r) c' a =
+      (if c' = c ∧ ends r a = true then false
+       else if c' = c ∧ r = .activate a then true else tableHas σ c' a) := by
+  cases r with
+  | activate s0 =>
+    simp only [tableWrite, tableHas_register, ends, Req.activate.injEq]
+    by_cases h : c' = c ∧ a = s0
+    · obtain ⟨h1, h2⟩ := h; subst h1 h2; simp
+    · have : ¬ (c' = c ∧ s0 = a) := fun e => h ⟨e.1, e.2.symm⟩
+      simp [h, this]
+  | deactivate s0 => simp [tableWrite, tableHas_unregister, ends]
+  | ident => simp [tableWrite, tableHas_resetConn, ends]
+  | disconnect => simp [tableWrite, tableHas_resetConn, ends]
+
 theorem tableHas_write_other (σ : State) (c c' : Conn) (r : Req) (s : Scope) (h : c' ≠ c) :
     tableHas (tableWrite σ c r) c' s = tableHas σ c' s := by
-  cases r with
-  | activate s0 => cases s0 <;> cases s <;> simp [tableWrite, register, tableHas, h]
-  | deactivate s0 => cases s0 <;> cases s <;> simp [tableWrite, unregister, tableHas, h]
-  | ident => cases s <;> simp [tableWrite, resetConn, tableHas, h]
-  | disconnect => cases s <;> simp [tableWrite, resetConn, tableHas, h]
+  simp [tableHas_tableWrite, h]
 
 theorem tableHas_write_self (σ : State) (c : Conn) (r : Req) (s : Scope)
     (h : tableHas (tableWrite σ c r) c s = true) : tableHas σ c s = true ∨ r = .activate s := by
-  cases r with
-  | activate s0 =>
-    cases s0 <;> cases s <;> simp_all [tableWrite, register, tableHas]
-    all_goals (rcases h with h | h <;> simp_all)
-  | deactivate s0 =>
-    cases s0 <;> cases s <;> simp_all [tableWrite, unregister, tableHas]
-  | ident => cases s <;> simp_all [tableWrite, resetConn, tableHas]
-  | disconnect => cases s <;> simp_all [tableWrite, resetConn, tableHas]
+  rw [tableHas_tableWrite] at h
+  split at h
+  · cases h
+  · split at h
+    · rename_i h2; exact Or.inr h2.2
+    · exact Or.inl h
 
 theorem tableHas_write_ends (σ : State) (c : Conn) (r : Req) (a : Scope) (h : ends r a = true) :
     tableHas (tableWrite σ c r) c a = false := by
-  cases r with
-  | activate s0 => simp [ends] at h
-  | deactivate s0 =>
-    cases s0 <;> cases a <;> simp_all [tableWrite, unregister, tableHas, ends, cancels]
-  | ident => cases a <;> simp [tableWrite, resetConn, tableHas]
-  | disconnect => cases a <;> simp [tableWrite, resetConn, tableHas]
+  simp [tableHas_tableWrite, h]
 
 /-- the table change of a request -/
 theorem silentInv_write (cfg : Cfg) (σ σ' : State) (c : Conn) (r : Req) (hI : SilentInv cfg σ) (hL : LockInv σ)
@@ -712,7 +919,7 @@ theorem activating_afterSnap (s : Scope) (l : List Mod) : activating (afterSnap 
 
 theorem ending_afterSnap (s : Scope) (l : List Mod) (r : Req) (h : ending (afterSnap s l) = some r) :
     r = .activate s := by
-  cases l <;> simp [afterSnap, ending] at h; exact h.symm
+  cases l <;> simp [afterSnap, ending, replyEnds] at h; exact h.symm
 
 theorem covInv_afterSnap (cfg : Cfg) (s : Scope) (l : List Mod) (h : ∀ m ∈ l, goodMod cfg s m) :
     covInv cfg (afterSnap s l) := by
@@ -728,23 +935,24 @@ theorem silentInv_stepH (cfg : Cfg) (σ σ' : State) (c : Conn) (hI : SilentInv 
   step_cases hs
   · -- thread ends
     rename_i heq _
-    exact silentInv_pcOnly cfg σ _ c .done hI hacc rfl rfl rfl rfl rfl rfl (by simp [activating]) (by simp [ending]) (by simp [covInv])
+    exact silentInv_pcOnly cfg σ _ c .done hI hacc rfl rfl rfl rfl rfl (by simp [activating]) (by simp [ending]) (by simp [covInv])
   · rename_i _ heq _ r rs _
-    exact silentInv_begin cfg σ _ c r hI hacc heq rfl rfl rfl rfl rfl rfl
+    exact silentInv_begin cfg σ _ c r hI hacc heq rfl rfl rfl rfl rfl
   · rename_i r heq _ _
-    exact silentInv_pcOnly cfg σ _ c _ hI hacc rfl rfl rfl rfl rfl rfl
+    exact silentInv_pcOnly cfg σ _ c _ hI hacc rfl rfl rfl rfl rfl
       (by intro s h; rw [heq]; cases r <;> simp_all [activating]) (by simp [ending]) (by simp [covInv])
-  · rename_i r heq _ _
-    exact silentInv_pcOnly cfg σ _ c _ hI hacc rfl rfl rfl rfl rfl rfl
-      (by intro s h; rw [heq]; cases r <;> simp_all [activating]) (by simp [ending]) (by simp [covInv])
+  · rename_i r heq _ hinv
+    exact silentInv_pcOnly cfg σ _ c _ hI hacc rfl rfl rfl rfl rfl
+      (by intro s h; rw [heq]; cases r <;> simp_all [activating])
+      (by intro r' h; cases r <;> simp_all [ending, replyEnds, validReq]) (by simp [covInv])
   · rename_i r heq hfree
     exact silentInv_write cfg σ _ c r hI hL hacc heq hfree (by simp) (by simp) (by simp)
       (by intro c' s; cases s <;> rfl)
   · rename_i r heq hr
     subst hr
-    exact silentInv_reply cfg σ _ c .disconnect true hI hacc (by intro _; rw [heq]; rfl) (by simp [afterTable]) rfl rfl rfl rfl rfl
+    exact silentInv_reply cfg σ _ c .disconnect (!cfg.logFails c) hI hacc (by intro _; rw [heq]; rfl) (by simp [afterTable]) rfl rfl rfl rfl
   · rename_i r heq hr
-    refine silentInv_pcOnly cfg σ _ c _ hI hacc rfl rfl rfl rfl rfl rfl ?_ ?_ ?_
+    refine silentInv_pcOnly cfg σ _ c _ hI hacc rfl rfl rfl rfl rfl ?_ ?_ ?_
     · intro s h; rw [heq]
       cases r with
       | activate s0 => simp only [afterTable] at h; rw [activating_afterSnap] at h; simpa [activating] using h
@@ -754,41 +962,41 @@ theorem silentInv_stepH (cfg : Cfg) (σ σ' : State) (c : Conn) (hI : SilentInv 
     · intro r' h; rw [heq]; left
       cases r with
       | activate s => simp only [afterTable] at h; rw [ending_afterSnap s _ r' h]; rfl
-      | deactivate s => simpa [afterTable, ending] using h
-      | ident => simpa [afterTable, ending] using h
+      | deactivate s => simpa [afterTable, ending, replyEnds] using h
+      | ident => simpa [afterTable, ending, replyEnds] using h
       | disconnect => exact absurd rfl hr
     · cases r with
       | activate s => exact covInv_afterSnap cfg s _ (goodMod_scopeMods cfg s)
       | _ => simp [afterTable, covInv]
   · rename_i s m rest heq hfree
     rw [heq] at hcov
-    exact silentInv_pcOnly cfg σ _ c _ hI hacc rfl rfl rfl rfl rfl rfl
+    exact silentInv_pcOnly cfg σ _ c _ hI hacc rfl rfl rfl rfl rfl
       (by intro s' h; rw [heq]; simpa [activating] using h) (by simp [ending])
       (by simp only [covInv] at hcov ⊢; exact ⟨hcov m (by simp), fun m' hm' => hcov m' (by simp [hm'])⟩)
   · rename_i s m rest heq
     rw [heq] at hcov
-    exact silentInv_pcOnly cfg σ _ c _ hI hacc rfl rfl rfl rfl rfl rfl
+    exact silentInv_pcOnly cfg σ _ c _ hI hacc rfl rfl rfl rfl rfl
       (by intro s' h; rw [heq]; rw [activating_afterSnap] at h; simpa [activating] using h)
       (by intro r' h; have := ending_afterSnap s rest r' h; subst this; right; intro a; rfl)
       (covInv_afterSnap cfg s rest hcov.2)
   · rename_i s m p ps rest heq
     rw [heq] at hcov
-    exact silentInv_pcOnly cfg σ _ c _ hI hacc rfl rfl rfl rfl rfl rfl
+    exact silentInv_pcOnly cfg σ _ c _ hI hacc rfl rfl rfl rfl rfl
       (by intro s' h; rw [heq]; simpa [activating] using h) (by simp [ending])
       (by simp only [covInv] at hcov ⊢
           exact ⟨hcov.1 p (by simp), fun p' hp' => hcov.1 p' (by simp [hp']), hcov.2⟩)
   · rename_i s m p e ps rest heq
     rw [heq] at hcov
     exact silentInv_pcOnly cfg σ _ c _ hI hacc rfl
-      (by simp only [liveOf]; rw [Mon.after_append]; rfl) rfl rfl rfl rfl
+      (by simp only [liveOf]; rw [Mon.after_append]; rfl) rfl rfl rfl
       (by intro s' h; rw [heq]; simpa [activating] using h) (by simp [ending])
       (by simp only [covInv] at hcov ⊢; exact ⟨hcov.2.1, hcov.2.2⟩)
   · rename_i r ok heq
-    exact silentInv_pcOnly cfg σ _ c _ hI hacc rfl rfl rfl rfl rfl rfl
+    exact silentInv_pcOnly cfg σ _ c _ hI hacc rfl rfl rfl rfl rfl
       (by intro s' h; rw [heq]; cases r <;> simp_all [activating])
-      (by intro r' h; rw [heq]; left; cases ok <;> simp_all [ending]) (by simp [covInv])
+      (by intro r' h; rw [heq]; left; simpa [ending] using h) (by simp [covInv])
   · rename_i r ok heq
-    exact silentInv_reply cfg σ _ c r ok hI hacc (by intro h; subst h; rw [heq]; rfl) rfl rfl rfl rfl rfl rfl
+    exact silentInv_reply cfg σ _ c r ok hI hacc (by intro h; rw [heq]; simp [ending, h]) rfl rfl rfl rfl rfl
 
 theorem silentInv_reach (cfg : Cfg) (hs us cache) (σ : State) (h : Reach cfg (init hs us cache) σ) :
     SilentInv cfg σ := by
@@ -816,11 +1024,7 @@ theorem run_reach (cfg : Cfg) (σ₀ σ σ' : State) (as : List Act) (h : Reach 
 
 theorem listens_write_other (σ : State) (c c' : Conn) (r : Req) (m : Mod) (p : Par) (h : c' ≠ c) :
     listens (tableWrite σ c r) c' m p = listens σ c' m p := by
-  cases r with
-  | activate s => cases s <;> simp [listens, tableWrite, register, h]
-  | deactivate s => cases s <;> simp [listens, tableWrite, unregister, h]
-  | ident => simp [listens, tableWrite, resetConn, h]
-  | disconnect => simp [listens, tableWrite, resetConn, h]
+  simp [listens_eq, tableHas_write_other _ _ _ _ _ h]
 
 theorem others_stepH (cfg : Cfg) (σ σ' : State) (c c' : Conn) (m : Mod) (p : Par) (h : c' ≠ c)
     (hs : stepH cfg σ c = some σ') : listens σ' c' m p = listens σ c' m p := by
